@@ -10,6 +10,7 @@ Modelled (real numpy semantics, float64 = reals):
 ``add/subtract/multiply/divide`` (functions = the operators), ``atleast_2d``, ``tile(v, (k, 1))``, ``sum(a, axis=0|1)``,
 builtin ``sum(a)``/``max(a)``, ``numpy.max``, ``argmax`` (first index of a maximal element), ``heaviside``, ``ndarray.flatten`` (rank 1, or
 one row), ``math.log`` (ValueError for x <= 0, uninterpreted ``np_log`` otherwise), ``A @ x`` for a matrix and a vector (row-wise sums),
+``v[:, newaxis]`` of a vector,
 equality of numpy function objects, opt-in frame facts for arrays (contract attribute ``frame_arrays = True``).
 """
 from __future__ import annotations
@@ -109,6 +110,16 @@ class NpC10Models:
     def equals(self, ex, a, b, lineno):
         if isinstance(a, BuiltinV) and isinstance(b, BuiltinV) and a.name.startswith("numpy.") and b.name.startswith("numpy."):
             return a.name == b.name
+        return NotImplemented
+
+    # ------------------------------------------------------------------ indexing
+    def getitem(self, ex, cont, key, lineno):
+        """``v[:, newaxis]`` of a vector: the (m, 1) column (numpy returns a view; modelled as a copy - no later in-place write in the verified code)."""
+        if not (_precise(ex) and _is_arr(ex, cont)):
+            return NotImplemented
+        A = _arr(ex, cont)
+        if A.rank == 1 and isinstance(key, tuple) and len(key) == 2 and _NP._is_full(key[0]) and isinstance(key[1], BuiltinV) and key[1].name == "numpy.newaxis":
+            return _NP.new(ex, A.kind, (A.shape[0], z3.IntVal(1)), _NP.lam(2, lambda i, j: A.elems[i]))
         return NotImplemented
 
     # ------------------------------------------------------------------ attributes / methods
